@@ -5,4 +5,4 @@ Extraction Language OCaml.
 Extraction "model.ml" base_anchor has_bad eval spec_outcome impl_outcome
   spec_script impl_script c12_ok c12_script_ok impl_agrees impl_script_agrees
   first_diff c12_conc_ok accepted_meanings explained
-  cond_holds cond_of c12_bits_ok c12_stress_ok cfg_states explained_by pmatch sp_atomic.
+  cond_holds cond_of c12_bits_ok c12_stress_ok cfg_states explained_by pmatch sp_atomic s_init.
